@@ -285,6 +285,9 @@ def describe(inst):
          "arcs": [list(a) for a in inst["arcs"]], "grid": list(inst["grid"])}
     if inst.get("lookup_first"):
         d["lookup_first"] = True
+    if inst.get("rebuild"):
+        d["rebuild"] = [inst["rebuild"][0], list(inst["rebuild"][1]) if isinstance(inst["rebuild"][1], (list, tuple))
+                        else inst["rebuild"][1]]
     return d
 
 
